@@ -78,11 +78,11 @@ type PipeEvent struct {
 }
 
 type PipeResult struct {
-	ID         string      `json:"id"`
-	Events     []PipeEvent `json:"events"`
-	Fails      []Fail      `json:"fails"`
-	HarnessErr string      `json:"harness_err,omitempty"`
-	Diverged   int         `json:"diverged"`
+	ID         string         `json:"id"`
+	Events     []PipeEvent    `json:"events"`
+	Fails      []Fail         `json:"fails"`
+	HarnessErr string         `json:"harness_err,omitempty"`
+	Diverged   int            `json:"diverged"`
 	Actions    map[string]int `json:"actions"`
 }
 
@@ -198,30 +198,30 @@ type hALL struct{ *base }
 type hRE struct{ *base }
 type hWX struct{ *base }
 
-func (h hA) HandleActive(c netty.ActiveContext)                   { h.active(c) }
-func (h hR) HandleRead(c netty.InboundContext, m netty.Message)    { h.read(c, m) }
-func (h hW) HandleWrite(c netty.OutboundContext, m netty.Message)  { h.write(c, m) }
+func (h hA) HandleActive(c netty.ActiveContext)                          { h.active(c) }
+func (h hR) HandleRead(c netty.InboundContext, m netty.Message)          { h.read(c, m) }
+func (h hW) HandleWrite(c netty.OutboundContext, m netty.Message)        { h.write(c, m) }
 func (h hX) HandleException(c netty.ExceptionContext, e netty.Exception) { h.exception(c, e) }
 func (h hI) HandleInactive(c netty.InactiveContext, e netty.Exception)   { h.inactive(c, e) }
-func (h hE) HandleEvent(c netty.EventContext, e netty.Event)       { h.event(c, e) }
+func (h hE) HandleEvent(c netty.EventContext, e netty.Event)             { h.event(c, e) }
 
 func (h hRW) HandleRead(c netty.InboundContext, m netty.Message)   { h.read(c, m) }
 func (h hRW) HandleWrite(c netty.OutboundContext, m netty.Message) { h.write(c, m) }
 
-func (h hARI) HandleActive(c netty.ActiveContext)                     { h.active(c) }
-func (h hARI) HandleRead(c netty.InboundContext, m netty.Message)      { h.read(c, m) }
+func (h hARI) HandleActive(c netty.ActiveContext)                        { h.active(c) }
+func (h hARI) HandleRead(c netty.InboundContext, m netty.Message)        { h.read(c, m) }
 func (h hARI) HandleInactive(c netty.InactiveContext, e netty.Exception) { h.inactive(c, e) }
 
-func (h hAWI) HandleActive(c netty.ActiveContext)                     { h.active(c) }
-func (h hAWI) HandleWrite(c netty.OutboundContext, m netty.Message)    { h.write(c, m) }
+func (h hAWI) HandleActive(c netty.ActiveContext)                        { h.active(c) }
+func (h hAWI) HandleWrite(c netty.OutboundContext, m netty.Message)      { h.write(c, m) }
 func (h hAWI) HandleInactive(c netty.InactiveContext, e netty.Exception) { h.inactive(c, e) }
 
-func (h hALL) HandleActive(c netty.ActiveContext)                        { h.active(c) }
-func (h hALL) HandleRead(c netty.InboundContext, m netty.Message)         { h.read(c, m) }
-func (h hALL) HandleWrite(c netty.OutboundContext, m netty.Message)       { h.write(c, m) }
+func (h hALL) HandleActive(c netty.ActiveContext)                          { h.active(c) }
+func (h hALL) HandleRead(c netty.InboundContext, m netty.Message)          { h.read(c, m) }
+func (h hALL) HandleWrite(c netty.OutboundContext, m netty.Message)        { h.write(c, m) }
 func (h hALL) HandleException(c netty.ExceptionContext, e netty.Exception) { h.exception(c, e) }
 func (h hALL) HandleInactive(c netty.InactiveContext, e netty.Exception)   { h.inactive(c, e) }
-func (h hALL) HandleEvent(c netty.EventContext, e netty.Event)            { h.event(c, e) }
+func (h hALL) HandleEvent(c netty.EventContext, e netty.Event)             { h.event(c, e) }
 
 func (h hRE) HandleRead(c netty.InboundContext, m netty.Message) { h.read(c, m) }
 func (h hRE) HandleEvent(c netty.EventContext, e netty.Event)    { h.event(c, e) }
